@@ -52,7 +52,8 @@ let cfg_of (config : string) : fscfg =
   match String.split_on_char ',' config with
   | sh :: q :: _ when String.length q >= 3 ->
     { f_base = base_path; f_shard = shard_of sh; f_esc = b32enc;
-      q_no_escape = (q.[1] = '1'); q_empty_ok = (q.[2] = '1') }
+      q_no_escape = (q.[1] = '1'); q_empty_ok = (q.[2] = '1');
+      q_mkdir_exist_fails = (String.length q < 4 || q.[3] = '1') }
   | sh :: _ -> pinned_cfg base_path (shard_of sh)
   | [] -> pinned_cfg base_path R12
 
@@ -104,7 +105,8 @@ let () =
                     we_names = (fun i -> stage_name (N.add ctr (n_of_nat i)));
                     we_dest = dest;
                     we_kind = (if op = "put" then WPut else WVec);
-                    we_empty_ok = cfg.q_empty_ok } in
+                    we_empty_ok = cfg.q_empty_ok;
+                    we_exist_fails = cfg.q_mkdir_exist_fails } in
         let chunks' = if op = "put" then (match chunks with c :: _ -> [c] | [] -> [[]]) else chunks in
         let flt =
           if fault = "none" then FNone
